@@ -22,23 +22,35 @@ Postconditions (from the property statement):
              interpolated (corner control points and S at the domain corners).
 
 What is symbolic.  Data points: `sym` lists the points whose first coordinate is a symbol (any real); every other
-coordinate is a constant.  The constants come from one of two tables:
-  'net'      shapes.net constants (distinct per point, chord lengths irrational -> math.sqrt yields algebraic atoms,
+coordinate is a constant.  The constants come from one of three tables:
+  'net'      distinct small rationals per point in the style of shapes.net (chord lengths irrational -> math.sqrt yields algebraic atoms,
              also for constant radicands: sqrt(13/4) is an exact algebraic constant, never a float),
   'lattice'  a polyline whose steps are rational unit vectors times perfect squares, so chord lengths *and* their
-             square roots (centripetal) are exact rationals for the concrete points.
+             square roots (centripetal) are exact rationals for the concrete points,
+  'uniform'  a zigzag of equal-length steps: uniform parameters, so averaged knots coincide with parameters.
+Surface grids: x_u, y_v unevenly spaced and z = 4/3 x + 3/4 y make every row / column chord and its square root
+rational; `bump` lifts the listed grid points off that plane by a constant (algebraic chord lengths), `sym` gives
+the listed grid points a symbolic z.
 With sym = all points the instance holds for every real value of one coordinate of every data point (the other
-coordinates fixed, consecutive points therefore distinct); with fewer symbols the remaining points are concrete.
+coordinates fixed); with fewer symbols the remaining points are concrete.  "Consecutive points are distinct" is assumed
+explicitly wherever the constants do not already imply it (_assume_distinct).
 Chord lengths that involve a symbol are sqrt atoms s with s >= 0, s*s = radicand (A4); centripetal = atom of an atom.
 Parameters / knots are rational functions of those atoms, the branch conditions of span search and of
 basis_function_one (uk[i] against averaged knots) are decided by z3 over the reals with those atom definitions.
 `params_curve` additionally has fully symbolic points (all coordinates) with the explicit precondition "consecutive
 points distinct".
+
+Bounds.  Symbolic data: 3-5 points (interpolation), 5-7 points (approximation), 3x3 .. 4x4 / 5x5 .. 5x6 grids, degree
+1-3, every admissible control point count for 5-7 data points; the reach is set by the pivots of the real LU
+factorisation: each `/ u[i][i]` makes the solver show a polynomial in the sqrt atoms non-zero (the total-positivity
+fact about collocation matrices, DESIGN.md section 8), which z3 decides for the listed shapes and not e.g. for 5
+points / degree 3 with a symbolic middle point.  Concrete exact data: up to 12 points (quick), 40 points per curve and
+7x7 grids (thorough).  Nothing is claimed outside these shapes.
 """
 from fractions import Fraction
 
 from .api import scenario
-from . import shapes, spec, assumptions
+from . import spec, assumptions
 
 assumptions.PROPS['C11'] = {'level': 'other', 'assume': ['A1', 'A2', 'A4', 'A5', 'A6', 'A7']}
 
@@ -50,6 +62,19 @@ _DIR2 = [(F(3, 5), F(4, 5)), (F(12, 13), F(5, 13)), (F(4, 5), F(-3, 5)), (F(5, 1
 _DIR3 = [(F(1, 3), F(2, 3), F(2, 3)), (F(6, 7), F(2, 7), F(-3, 7)), (F(2, 3), F(-1, 3), F(2, 3)), (F(2, 7), F(3, 7), F(6, 7)),
          (F(4, 9), F(4, 9), F(7, 9)), (F(8, 9), F(1, 9), F(-4, 9)), (F(0), F(0), F(1))]
 _LEN = [F(4), F(1), F(9), F(1, 4), F(9, 4), F(1), F(4), F(16)]
+
+
+def _uniform(n, dim):
+    """zigzag of equal-length rational steps: both parametrisations are exactly uniform, so for odd degree every
+    averaged interior knot coincides with a parameter (find_span / basis_function at a knot)"""
+    a = (F(3), F(4), F(0)) if dim == 3 else (F(3), F(4))
+    b = (F(4), F(-3), F(0)) if dim == 3 else (F(4), F(-3))
+    pt = [F(0)] * dim
+    out = [list(pt)]
+    for i in range(1, n):
+        pt = [x + y for x, y in zip(pt, a if i % 2 else b)]
+        out.append(list(pt))
+    return out
 
 
 def _lattice(n, dim, shift=0):
@@ -69,6 +94,8 @@ def _points(ctx, n, dim, sym, table, prefix='Q'):
     """data points (see module docstring): sym = 'all' | list of indices with a symbolic first coordinate"""
     if table == 'lattice':
         base = [[ctx.lit(c) for c in pt] for pt in _lattice(n, dim)]
+    elif table == 'uniform':
+        base = [[ctx.lit(c) for c in pt] for pt in _uniform(n, dim)]
     else:
         base = [[ctx.lit(F(3 * i * i - 7 * i, 4))] + [ctx.lit(F((i + 1) * (d + 2) + d * d, 1 + d)) for d in range(1, dim)]
                 for i in range(n)]
@@ -309,6 +336,8 @@ def _ic_shapes(tier):
         out.append(dict(n=5, p=3, dim=3, centripetal=c, sym=[], table='lattice'))
         out.append(dict(n=6, p=3, dim=3, centripetal=c, sym=[], table='lattice'))
         out.append(dict(n=9, p=2, dim=2, centripetal=c, sym=[], table='lattice'))
+        out.append(dict(n=7, p=3, dim=2, centripetal=c, sym=[], table='uniform'))
+    out.append(dict(n=5, p=3, dim=2, centripetal=False, sym=[0], table='uniform'))
     out.append(dict(n=5, p=2, dim=2, centripetal=False, sym='all', table='net'))
     out.append(dict(n=5, p=2, dim=2, centripetal=False, sym=[2], table='lattice'))
     out.append(dict(n=5, p=3, dim=2, centripetal=False, sym=[0, 4], table='net'))
@@ -424,7 +453,9 @@ def _ac_shapes(tier):
            dict(m=7, p=2, ncp=5, dim=2, centripetal=True, sym=[0, 6], table='lattice'),
            dict(m=7, p=2, ncp=6, dim=2, centripetal=True, sym=[0, 6], table='lattice'),
            dict(m=7, p=3, ncp=5, dim=2, centripetal=True, sym=[0, 6], table='lattice'),
-           dict(m=7, p=3, ncp=6, dim=3, centripetal=True, sym=[], table='lattice')]
+           dict(m=7, p=3, ncp=6, dim=3, centripetal=True, sym=[], table='lattice'),
+           dict(m=6, p=2, ncp=4, dim=2, centripetal=False, sym=[], table='uniform'),
+           dict(m=7, p=3, ncp=5, dim=3, centripetal=True, sym=[], table='uniform')]
     if tier == 'thorough':
         for c in (False, True):
             out.append(dict(m=7, p=3, ncp=6, dim=2, centripetal=c, sym=[0, 6], table='lattice'))
